@@ -294,7 +294,7 @@ def build_catalogue():
         cat.append(sepfmt(f"SEP_ALL_{mode_tag(mask, c)}", fl, floats=("f64", "f32")))
     for comp in comps:
         for (mask, c) in modes:
-            cat.append(sepfmt(f"SEP_{comp[:3].upper()}_{mode_tag(mask, c)}", mode_flags(comp, mask, c), ints=("u32", "i64") if comp == "integer" else ()))
+            cat.append(sepfmt(f"SEP_{comp[:3].upper()}_{mode_tag(mask, c)}", mode_flags(comp, mask, c), ints=("u32", "i64")))
     seen_sep = set()
     n = 0
     while n < 60:
